@@ -1,7 +1,59 @@
 import ASV.Drv.J
+import ASV.Drv.C01
+import ASV.Model.Protocluster
+import ASV.Spec.Chains
 namespace ASV.Drv.C03
-open Lean ASV ASV.Drv
+open Lean ASV ASV.Drv ASV.Rules ASV.Proto
 
-def handle (_j : Json) : R Json := throw "C03: no model yet"
+def geneOfJson (j : Json) : R GeneInfo := do
+  let hits ← listOf (fun h => do return ((← asStr (← idx h 0)), (← asInt (← idx h 1)))) (← fld j "hits")
+  let hasRes ← boolF j "hasres"
+  return ⟨← natF j "n", ← locOfJson (← fld j "loc"), if hasRes then hits else [], hasRes⟩
+
+def ruleOfJson (j : Json) : R RuleM := do
+  let cond ← ASV.Drv.C01.condOfJson (← fld j "cond")
+  -- `Conditions(False, [cond])` unless the condition already is a plain `Conditions` group
+  let top := match cond with
+    | .group _ _ => cond
+    | c => .group false [c]
+  let ext ← match j.getObjVal? "ext" with
+    | .ok .null => pure none
+    | .ok v => do pure (some (← ASV.Drv.C01.condOfJson v))
+    | .error _ => pure none
+  return ⟨← strF j "name", ← intF j "cutoff", ← intF j "nbhd", top, ← listOf asStr (← fld j "sup"), ext⟩
+
+def pcToJson (o : Out) : Json :=
+  jObj [("rule", Json.str o.pc.rule), ("core", locToJson o.pc.core), ("loc", locToJson o.pc.loc),
+        ("defs", jArr ((sortDedup (fun a b => a.1 < b.1) o.defs).map fun d =>
+          jArr [toJson d.1, jStrs (sortDedup (· < ·) d.2)]))]
+
+def implOfJson (j : Json) : R Chains.ImplPC := do
+  return ⟨← strF j "rule", ← locOfJson (← fld j "core"), ← locOfJson (← fld j "loc")⟩
+
+def handle (j : Json) : R Json := do
+  let genes ← listOf geneOfJson (← fld j "genes")
+  let order ← listOf asNat (← fld j "order")
+  let ordered := order.filterMap fun n => genes.find? (·.id == n)
+  let r : Rec := ⟨← intF j "len", ← boolF j "circ", ordered⟩
+  let rules ← listOf ruleOfJson (← fld j "rules")
+  let stages := detectStages (withinSpec r) r rules
+  let model := match stages with
+    | .ok s => jObj [("ok", jArr (s.final.map pcToJson))]
+    | .error e => jObj [("err", Json.str e)]
+  let impl ← match j.getObjVal? "impl" with
+    | .ok .null => pure none
+    | .ok v => do pure (some (← listOf implOfJson v))
+    | .error _ => pure none
+  let v := Chains.verdict r rules impl
+  -- is this input inside a known-finding class?  (the model mirrors the recorded defect there)
+  let vm := match stages with
+    | .ok s => Chains.verdict r rules (some (s.final.map fun (o : Out) => (⟨o.pc.rule, o.pc.core, o.pc.loc⟩ : Chains.ImplPC)))
+    | .error _ => { ok := true }
+  return jObj [("model", model),
+    ("spec", jObj [("ok", toJson v.ok), ("why", Json.str v.why), ("known", Json.str v.known),
+                   ("groups", toJson v.groups), ("maxgroup", toJson v.maxGroup), ("long", toJson v.longChain),
+                   ("model_known", Json.str (if vm.ok then "" else vm.known))]),
+    ("scope", jObj [("linear", toJson (!r.circular)), ("wf", toJson (Chains.inputsWF r rules)),
+                    ("plain", toJson (rules.all fun x => x.superiors.isEmpty && x.extenders.isNone))])]
 
 end ASV.Drv.C03
